@@ -218,3 +218,40 @@ def _(raw_data: Bytes(lo=4, hi=1024 + 4)) -> Opaque():
     pure()
     sample_with(lambda rnd: (lambda n: {"raw_data": bytes([4, 0]) + n.to_bytes(2, "little") + bytes(rnd.getrandbits(8) for _ in range(min(n, 1020)))})(
         rnd.choice([0, 1, 32, 255, 256, 512, 1016])))
+
+
+# ----------------------------------------------------------------------------------------------------------------------
+# command packets and responses: what goes to / comes from the device, word by word
+# ----------------------------------------------------------------------------------------------------------------------
+from spsdk.mboot.commands import GenericResponse, GetPropertyResponse  # noqa: E402
+
+inline("spsdk.mboot.commands:CmdHeader.to_bytes", "spsdk.mboot.commands:CmdResponse.__init__")
+MB_HDR = Obj(CmdHeader, tag=U8, flags=U8, reserved=Const(0), params_count=U8)
+
+
+@contract("spsdk.mboot.commands:CmdPacket.to_bytes")
+def _(self: Union[Obj(CmdPacket, header=MB_HDR, params=ListOf(U32, 0)), Obj(CmdPacket, header=MB_HDR, params=ListOf(U32, 2)), Obj(CmdPacket, header=MB_HDR, params=ListOf(U32, 7))],
+      padding: OneOf(False, True)) -> bytes:
+    let(k=len(self.params))
+    ensures(len(result) == (32 if padding else 4 + 4 * k), label="padded-to-32-or-exact")
+    ensures(result[0] == self.header.tag and result[1] == self.header.flags and result[2] == 0 and result[3] == k, label="tag-flags-reserved-parameter-count")
+    ensures(all(int.from_bytes(result[4 + 4 * i: 8 + 4 * i], "little") == self.params[i] for i in range(k)), label="parameters-in-order-little-endian")
+    ensures(forall(4 + 4 * k, len(result), lambda j: result[j] == 0), label="padding-is-zero")
+    modifies(self.header.params_count)
+    sample_with(lambda rnd: {"self": CmdPacket(rnd.choice(list(CommandTag)), rnd.getrandbits(8), *[rnd.getrandbits(32) for _ in range(rnd.choice([0, 2, 7]))]),
+                             "padding": rnd.random() < 0.5})
+
+
+@contract("spsdk.mboot.commands:GenericResponse.__init__")
+def _(self: Obj(GenericResponse), header: MB_HDR, raw_data: Bytes(lo=8, hi=64)):
+    ensures(self.status == int.from_bytes(raw_data[0:4], "little") and self.cmd_tag == int.from_bytes(raw_data[4:8], "little"), label="status-and-command-tag-as-the-device-sent-them")
+    modifies(self.header, self.raw_data, self.status, self.cmd_tag)
+
+
+@contract("spsdk.mboot.commands:GetPropertyResponse.__init__")
+def _(self: Obj(GetPropertyResponse), header: Union[Obj(CmdHeader, tag=U8, flags=U8, reserved=Const(0), params_count=Const(2)),
+                                                    Obj(CmdHeader, tag=U8, flags=U8, reserved=Const(0), params_count=Const(4))], raw_data: Bytes(lo=16, hi=64)):
+    ensures(self.status == int.from_bytes(raw_data[0:4], "little"), label="status-as-sent")
+    ensures(len(self.values) == header.params_count - 1 and all(self.values[i] == int.from_bytes(raw_data[4 + 4 * i: 8 + 4 * i], "little") for i in range(header.params_count - 1)),
+            label="property-values-as-sent-in-order")
+    modifies(self.header, self.raw_data, self.status, self.values)
